@@ -165,7 +165,7 @@ Definition expected_wrappers : list (bstr * wrapper) :=
 Definition wrapper_eq_dec : forall a b : wrapper, {a = b} + {a <> b}.
 Proof. decide equality; apply bstr_eq_dec. Defined.
 Definition reader_eq_dec : forall a b : reader, {a = b} + {a <> b}.
-Proof. decide equality; try apply bstr_eq_dec; try apply ikind_eq_dec; apply N.eq_dec. Defined.
+Proof. decide equality; try apply bstr_eq_dec; try apply ikind_eq_dec; try apply Bool.bool_dec; apply N.eq_dec. Defined.
 
 Theorem wrappers_match_model :
   forall n w, In (n, w) expected_wrappers -> assoc gen_dec_wrappers n = Some w.
@@ -186,7 +186,19 @@ Definition expected_readers : list (bstr * reader) :=
    ("ReadUint", RdConv KUint "ReadUint64"); ("ReadUint8", RdConv KUint8 "ReadUint64"); ("ReadUint16", RdConv KUint16 "ReadUint64");
    ("ReadUint32", RdConv KUint32 "ReadUint64"); ("ReadUint64", RdPrimitive); ("readUint64", RdPrimitive);
    (* the float readers: strconv.ParseFloat with the destination's own bit size (one rounding) *)
-   ("ReadFloat32", RdParseFloat 32); ("ReadFloat64", RdParseFloat 64)].
+   ("ReadFloat32", RdParseFloat 32); ("ReadFloat64", RdParseFloat 64);
+   (* ownership of what the readers return: Until / Next / readSafeString / readStringAsSafeBytes copy a
+      window of the read buffer, the Unsafe variants alias it; ReadBytes / ReadString (the readers behind
+      every arm whose value outlives the call) are built on the copying ones *)
+   ("Until", RdOwn true "until"); ("UnsafeUntil", RdOwn false "until");
+   ("Next", RdOwn true "next"); ("UnsafeNext", RdOwn false "next");
+   ("readStringAsSafeBytes", RdOwn true "readStringAsBytes");
+   ("readSafeString", RdOwn true "readStringAsBytes"); ("readUnsafeString", RdOwn false "readStringAsBytes");
+   ("readBytes", RdVia "Next" false); ("readUnsafeBytes", RdGuarded "next"); ("ReadBytes", RdVia "readBytes" true);
+   ("ReadSafeString", RdVia "readSafeString" false); ("ReadUnsafeString", RdGuarded "readStringAsBytes");
+   ("ReadString", RdVia "ReadSafeString" true); ("ReadStringAsBytes", RdVia "readStringAsSafeBytes" false);
+   (* since 831d17a: the windows that are used after the closing quote is skipped are copied when that skip refills the buffer *)
+   ("skipAfter", RdSkipAfter)].
 
 (* the string parsers behind the 'u' / 's' arms and the converters: the model's [parse_str] and the
    oracle functions pf32/pf64/pc64/pc128/bf/rat stand for exactly these library calls *)
